@@ -27,6 +27,7 @@ KnownNullPoints == {<<"to_null", "components">>, <<"to_null", "components/exampl
 ExtEmptyComponentPaths == {"components/schemas/Err", "components/schemas/Item", "components/schemas/CycA", "components/schemas/CycB",
                            "components/callbacks/Cb", "components/links/L", "components/requestBodies/Body", "components/securitySchemes/key",
                            "components/securitySchemes/oauth"}
+SparseNullEntries == {"paths//u/get/responses/200/content/application/json/examples/E", "components/examples/Z", "components/links/Z"}
 IsKnownNilPoint(m) == (m.op = "ref_ext_empty" /\ m.path \in ExtEmptyComponentPaths) \/ (m.op \in RefOpsF /\ m.path \in UnresolvedRefPaths) \/ <<m.op, m.path>> \in KnownNullPoints
 
 Panicked(obs) == {s \in DOMAIN obs : obs[s] = "panic"}
@@ -34,6 +35,10 @@ Panicked(obs) == {s \in DOMAIN obs : obs[s] = "panic"}
 Class(line, bad) ==
    LET ms == (IF "applied" \in DOMAIN line THEN line.applied ELSE <<>>)  msg == IF "msg" \in DOMAIN line THEN line.msg ELSE "" IN
    IF bad # {"returns_normally"} \/ \E s \in DOMAIN line.obs : line.obs[s] \in {"hang", "crash"} THEN "none"
+   ELSE IF line.c.base.comps # "full"                       \* the points listed above are nodes of the full base document;
+        THEN (IF msg = NilDeref /\ Panicked(line.obs) \subseteq {"marshal_json", "marshal_yaml"}      \* on a sparse base: a null entry of an examples / links map
+                 /\ \E i \in DOMAIN ms : ms[i].op = "to_null" /\ ms[i].path \in SparseNullEntries
+              THEN "nil_entry_dereferenced" ELSE "none")
    ELSE IF msg = NoName /\ Panicked(line.obs) = {"internalize"} /\ \E i \in DOMAIN ms : ms[i].op \in RefOpsF
         THEN "internalize_panics_unresolvable_ref_name"
    ELSE IF msg = NilDeref /\ \E i \in DOMAIN ms : IsKnownNilPoint(ms[i])
